@@ -1110,6 +1110,9 @@ def apply_env(world, op):
         return True
     if op["op"] == "env_transform":
         cur = world.snapshot().get(op["path"])
+        if cur is not None and op["how"] == "hardlink":
+            world.hardlink(op["path"])
+            return True
         if cur is not None:
             how = op["how"]
             if how == "crlf":
